@@ -283,7 +283,7 @@ theorem klaec_complete_within_caps_proof (inp : WalkInput) (walk : Nat → List 
   refine ⟨hsat, ?_, fun i => klaecAsg_weights inp _ w _ _ _ i, hee, ?_⟩
   · intro i e
     unfold multOf klaecWalkAsg
-    rw [klaecAsg_edge, floor_toNat_natCast]
+    rw [klaecAsg_edge, pyRoundCount_natCast]
     rfl
   · rw [klaecLP_obj]
     unfold LAEC.totalErr
